@@ -101,6 +101,7 @@ type HarnessRun struct {
 	Inconclusive []string       `json:"inconclusive"`
 	Unsupported  []string       `json:"unsupported"`
 	Outside      []string       `json:"outside_claim"`
+	Hazards      []string
 	feasUnknown  int
 	Samples      []Sample `json:"samples"`
 	Funcs        map[string]bool
@@ -143,6 +144,11 @@ func (h *HarnessRun) noteUnsupported(s string) {
 	addUnique(&h.Unsupported, s)
 	h.aborted = true
 	h.work = nil
+	h.mu.Unlock()
+}
+func (h *HarnessRun) noteHazard(s string) {
+	h.mu.Lock()
+	addUnique(&h.Hazards, s)
 	h.mu.Unlock()
 }
 func (h *HarnessRun) noteOutside(s string) {
@@ -460,6 +466,7 @@ type HarnessSummary struct {
 	Inconclusive []string               `json:"inconclusive"`
 	Unsupported  []string               `json:"unsupported"`
 	Outside      []string               `json:"outside_claim"`
+	Hazards      []string               `json:"hazards"`
 	FeasUnknown  int                    `json:"feasibility_unknown"`
 	Samples      []Sample               `json:"samples"`
 	Funcs        []string               `json:"functions_encoded"`
@@ -481,7 +488,7 @@ func (h *HarnessRun) Summary() *HarnessSummary {
 	}
 	return &HarnessSummary{Name: h.Name, Paths: h.Paths, Ends: h.Ends, Instrs: h.Instrs, Obligations: h.obligations,
 		Discharged: h.discharged, Violations: h.Violations, KnownHits: h.KnownHits, Covers: h.Covers,
-		Inconclusive: h.Inconclusive, Unsupported: h.Unsupported, Outside: h.Outside, FeasUnknown: h.feasUnknown,
+		Inconclusive: h.Inconclusive, Unsupported: h.Unsupported, Outside: h.Outside, Hazards: h.Hazards, FeasUnknown: h.feasUnknown,
 		Samples: h.Samples, Funcs: fs, Notes: h.Notes, MaxPC: h.MaxPC, WallS: h.WallS, Witnesses: h.Witnesses,
 		CoversDecl: declaredCovers(h.Fn)}
 }
